@@ -43,14 +43,17 @@ SHAPES = [
 def plan(tier, seed):
     n = 16
     per = 6000 if tier == "quick" else 40000
-    return [{"name": "s%02d" % i, "shard": i, "cases": per, "timeout": 7000} for i in range(n)]
+    specs = [{"name": "s%02d" % i, "shard": i, "cases": per, "timeout": 7000} for i in range(n)]
+    specs += [{"name": "pederr%d" % i, "kind": "pederr", "shard": i, "cases": 60 if tier == "quick" else 600, "timeout": 7000} for i in range(4)]
+    return specs
 
 
 def required(tier):
     return {"trio_configs": 3000, "progeny_evaluated": 30000, "sum_to_one_checked": 3000, "validity_checked": 5000,
             "gamete_sums": 1000, "configs_unbalanced": 300, "configs_lambda": 300, "configs_clonal": 100,
             "configs_unknown_parent": 300, "configs_zero_error": 300, "invalid_trios_seen": 300,
-            "dirty_scratch_calls": 5000, "extra_padding_calls": 5000}
+            "dirty_scratch_calls": 5000, "extra_padding_calls": 5000,
+            "pederr_traces_checked": 150, "pederr_steps_decided": 5000, "pederr_traces_parent_ploidy_above_progeny": 40, "pederr_traces_with_valid_and_invalid_steps": 40}
 
 
 def make_case(rng):
@@ -234,7 +237,92 @@ def exhaustive_small(col, K, shard):
         check_case(c, col, K)
 
 
+
+def run_pederr(tier, seed, spec, col):
+    """PEDERR as the program computes it (PedigreeAllelesMultiTrace.incongruence over a whole trace) against the same
+    statement: a step counts as a pedigree error exactly when the zero-error probability of the progeny genotype given its
+    parents is zero.  Pedigrees of mixed ploidy (parents with more copies than their progeny and vice versa), unbalanced and
+    clonal gametes, double reduction, unknown parents; genotype rows padded with -1 to the widest ploidy, stored sorted (as the
+    sampler emits them) or in arbitrary order."""
+    from mchap.pedigree.classes import PedigreeAllelesMultiTrace
+
+    from vlib import pedgen
+
+    names = ["mixed_4x2_3", "mixed_2x4_3", "unreduced", "mixed_6x4_5", "mixed_then_child", "random", "trio4", "unbalanced31", "clone", "halfsibs",
+             "threegen", "random", "duo4", "selfing4", "backcross4", "duo6"]
+    for i in range(spec["cases"]):
+        rng = gen.rng_for(seed, ID, 900 + spec["shard"], i)
+        I = pedgen.make_pedigree(rng, names[(spec["shard"] + i) % len(names)])
+        ploidy, parents, tau, lam = I["ploidy"], I["parents"], I["tau"], I["lam"]
+        n, mp, n_h = len(ploidy), int(ploidy.max()), len(I["haps"])
+        tc = P.TrioCache(np.full(n_h, 1.0 / n_h))
+        chains, steps = int(rng.integers(1, 3)), int(rng.integers(5, 40))
+        T = np.full((chains, steps, n, mp), -1, dtype=np.int16)
+        order = [x for x in range(n)]
+        # parents before progeny so that progeny can be drawn from their parents' alleles (valid trios are then common)
+        order.sort(key=lambda x: (parents[x] >= 0).sum())
+        done = set()
+        todo = list(range(n))
+        while todo:
+            for x in list(todo):
+                if all(p < 0 or p in done for p in parents[x]):
+                    for c in range(chains):
+                        for t in range(steps):
+                            row = []
+                            for side in (0, 1):
+                                p_, k = int(parents[x, side]), int(tau[x, side])
+                                if p_ >= 0 and rng.random() < 0.8:
+                                    src = [int(a) for a in T[c, t, p_, : ploidy[p_]]]
+                                    row += [src[int(j)] for j in rng.integers(0, len(src), size=k)] if (lam[x, side] > 0 or k > len(src)) else [src[int(j)] for j in rng.permutation(len(src))[:k]]
+                                else:
+                                    row += [int(a) for a in rng.integers(0, n_h, size=k)]
+                            row = row[: ploidy[x]] + [int(a) for a in rng.integers(0, n_h, size=max(0, int(ploidy[x]) - len(row)))]
+                            T[c, t, x, : ploidy[x]] = row
+                    done.add(x)
+                    todo.remove(x)
+        sorted_rows = bool(rng.random() < 0.5)
+        for c in range(chains):
+            for t in range(steps):
+                for x in range(n):
+                    r = T[c, t, x, : ploidy[x]]
+                    T[c, t, x, : ploidy[x]] = np.sort(r) if sorted_rows else r[rng.permutation(len(r))]
+        want = np.zeros(n)
+        for c in range(chains):
+            for t in range(steps):
+                for x in range(n):
+                    p_, q_ = int(parents[x, 0]), int(parents[x, 1])
+                    if p_ < 0 and q_ < 0:
+                        continue
+                    gp = tuple(int(a) for a in T[c, t, p_, : ploidy[p_]]) if p_ >= 0 else None
+                    gq = tuple(int(a) for a in T[c, t, q_, : ploidy[q_]]) if q_ >= 0 else None
+                    g = tuple(int(a) for a in T[c, t, x, : ploidy[x]])
+                    pr = tc.prob(g, gp, gq, int(tau[x, 0]), int(tau[x, 1]), float(lam[x, 0]), float(lam[x, 1]), 0.0 if p_ >= 0 else 1.0, 0.0 if q_ >= 0 else 1.0)
+                    col.count("pederr_steps_decided")
+                    if pr <= 0:
+                        want[x] += 1
+        want /= chains * steps
+        case = {"kind": "pederr", "seed": seed, "shard": spec["shard"], "case": i, "scenario": I["name"], "ploidy": ploidy.tolist(), "parents": parents.tolist(), "tau": tau.tolist()}
+        col.case("PEDERR|%d|%d" % (spec["shard"], i), nontrivial=True)
+        col.count("pederr_traces_checked")
+        known = [(int(p_), int(q_)) for p_, q_ in parents]
+        if any((p_ >= 0 and ploidy[p_] > ploidy[x]) or (q_ >= 0 and ploidy[q_] > ploidy[x]) for x, (p_, q_) in enumerate(known)):
+            col.count("pederr_traces_parent_ploidy_above_progeny")
+        if (want > 0).any() and (want < 1).any():
+            col.count("pederr_traces_with_valid_and_invalid_steps")
+        try:
+            got = np.asarray(PedigreeAllelesMultiTrace(T.copy(), n_allele=n_h).incongruence(ploidy, parents, tau, lam), dtype=float)
+        except Exception as ex:  # noqa: BLE001
+            col.violation("pederr-computation-raises", "[%s] incongruence() raised %r" % (I["name"], ex), case)
+            continue
+        bad = [x for x in range(n) if abs(got[x] - want[x]) > 1e-12]
+        if bad:
+            x = bad[0]
+            col.violation("pederr-differs-from-zero-error-positivity", "[%s, rows %s] sample %d (ploidy %d, parents %s of ploidy %s, tau %s): PEDERR %.6g but the zero-error probability is zero in a fraction %.6g of the steps"
+                          % (I["name"], "sorted" if sorted_rows else "unsorted", x, ploidy[x], known[x], [int(ploidy[p_]) if p_ >= 0 else None for p_ in known[x]], tau[x].tolist(), got[x], want[x]), case)
+
 def run_shard(tier, seed, spec, col):
+    if spec.get("kind") == "pederr":
+        return run_pederr(tier, seed, spec, col)
     K = kernels()
     for i in range(spec["cases"]):
         rng = gen.rng_for(seed, ID, spec["shard"], i)
